@@ -27,7 +27,8 @@ class C05(LBCheck):
           'with joins and leaves under traffic and faults) and compares at final quiescence. '
           'non-trivial = a join or leave was delivered; distinct as C03')
   REQUIRED_CLASSES = ('heap', 'aperture', 'join-duplicate', 'leave-unknown', 'rejoin', 'notify-during-loading',
-                      'rejoin-while-draining', 'removal', 'init-retry', 'saturation-probe', 'full-stack', 'tuple-endpoints', 'close-raises-on-leave', 'duplicates-in-initial-list')
+                      'rejoin-while-draining', 'removal', 'init-retry', 'saturation-probe', 'full-stack', 'tuple-endpoints', 'close-raises-on-leave', 'duplicates-in-initial-list',
+                      'named-endpoint')
   ASSUMPTIONS = ('eligible endpoints are read from the balancer\'s heap and idle set (observe_at: internal)',)
 
   def run_case(self, env, rng, idx, tier):
